@@ -566,7 +566,7 @@ impl Response {
             if !is_first_iteration {
                 header = Response::_parse_http_response_header_string(&string);
                 if header.name == Header::_CONTENT_LENGTH {
-                    content_length = header.value.parse().unwrap();
+                    content_length = header.value.parse().unwrap_or(content_length);
                 }
             }
 
@@ -853,7 +853,11 @@ impl Response {
                 }
                 let header = boxed_header.unwrap();
                 if header.name == Header::_CONTENT_LENGTH {
-                    content_length = header.value.parse().unwrap();
+                    let boxed_content_length = header.value.parse();
+                    if boxed_content_length.is_err() {
+                        return Err(format!("unable to parse {} header value: {}", Header::_CONTENT_LENGTH, header.value));
+                    }
+                    content_length = boxed_content_length.unwrap();
                 }
                 response.headers.push(header);
             }
